@@ -12,12 +12,14 @@ func main() {
 		Rule: "random well-typed-by-construction Lua programs (generator luagen, core feature mix: every operator with constant/local/upvalue/global/field operands, " +
 			"single and multiple assignment incl. swaps, all loop kinds, break, goto shapes) printed one statement per line; each is run on the real interpreter " +
 			"and its emit trace/results/error compared in Coq with the reference evaluator; non-trivial = at least 5 emitted rows or an error outcome; distinct by Gallina term",
-		Modes:     []luaprop.Mode{{Name: "core", Features: luagen.CoreFeatures(), Weight: 1}},
+		Modes:     []luaprop.Mode{{Name: "core", Features: luagen.CoreFeatures(), Weight: 5}, {Name: "core-bigk", Features: bigk(luagen.CoreFeatures()), Weight: 1}},
 		NQuick:    220,
 		NThorough: 6000,
 		Corpus:    corpus,
 	})
 }
+
+func bigk(f luagen.Features) luagen.Features { f.BigK = true; f.MaxStmts = 25; return f }
 
 // witnesses of repaired defects and minimised earlier failures
 var corpus = []string{
@@ -31,5 +33,8 @@ var corpus = []string{
 	`local i=0 local j=0 if i>100 then j=5 end while true do while true do break end i=i+1 j=j+10 if i>3 then break end end emit(i,j)`,
 	`emit(pcall(error)); emit(pcall(function() local x = nil; return x.y end))`,
 	`emit(10 % 3, -10 % 3, 10 % -3, 2^10, 7/2, "10"+1, "0x10"*2, 10 .. 20, #"abc", not nil, 1 < 2, "a" < "b", 1 == 1.0, "1" == 1)`,
+	`local u = {1,2,3,4,5,6,7,8,9,10,11,12,13,14,15,16,17,18,19,20,21,22,23,24,25,26,27,28,29,30,31,32,33,34,35,36,37,38,39,40,41,42,43,44,45,46,47,48,49,50, (function() return 7, 8 end)()}; emit(#u, u[1], u[51], u[52]); local w = {7,7,7,7,7,7,7,7,7,7,7,7,7,7,7,7,7,7,7,7,7,7,7,7,7,7,7,7,7,7,7,7,7,7,7,7,7,7,7,7,7,7,7,7,7,7,7,7,7,7, x = 9}; emit(#w, w[1], w.x)`,
+	`local t = {}; local k = 1; t[k], k = "v", 2; emit(t[1], t[2], k); local a, i = {}, 1; a[i], i = 10, i + 1; emit(a[1], a[2], i)`,
+	`local n = 0; for i = 0, 1, 0 do n = n + 1; if n > 3 then break end end; emit(n)`,
 	`local t = {10,20,30,nil}; emit(#t); t[#t+1] = 40; emit(#t, t[4]); local u = {n=1, [1]="a", [2]="b"}; emit(#u, u.n)`,
 }
